@@ -34,6 +34,18 @@ IntersectionsOK(v, o, d, ints, mul) ==
     /\ \A j \in 1..(Len(ints) - 1) :                                         \* strictly ascending exact values
           FLt(EdgeT0(v, ints[j][2] + 1, o, d), EdgeT0(v, ints[j + 1][2] + 1, o, d))
 
+\* Vertices lying exactly on the line, and whether the line properly crosses the curve there (the two
+\* neighbours strictly on opposite sides). A proper crossing survives any small perturbation of the
+\* line, a touch, an end of an open polyline or an edge along the line does not.
+Sgn(x) == IF x > 0 THEN 1 ELSE IF x < 0 THEN -1 ELSE 0
+SideOf(v, k, o, d) == Sgn(Cross2(VSub(v[k], o), d))
+OnLine(v, o, d) == {k \in 1..Len(v) : SideOf(v, k, o, d) = 0}
+ClosedPoly(v) == Len(v) > 2 /\ v[1] = v[Len(v)]
+PrevV(v, k) == IF k > 1 THEN k - 1 ELSE IF ClosedPoly(v) THEN Len(v) - 1 ELSE 0
+NextV(v, k) == IF k < Len(v) THEN k + 1 ELSE IF ClosedPoly(v) THEN 2 ELSE 0
+ProperAt(v, k, o, d) == PrevV(v, k) # 0 /\ NextV(v, k) # 0 /\ SideOf(v, PrevV(v, k), o, d) * SideOf(v, NextV(v, k), o, d) < 0
+RobustCount(v, o, d) == \A k \in OnLine(v, o, d) : ProperAt(v, k, o, d)
+
 MinRep(v, o, d) == CHOOSE k \in Reps(v, o, d) : \A j \in Reps(v, o, d) : j = k \/ FLt(EdgeT0(v, k, o, d), EdgeT0(v, j, o, d))
 MaxRep(v, o, d) == CHOOSE k \in Reps(v, o, d) : \A j \in Reps(v, o, d) : j = k \/ FLt(EdgeT0(v, j, o, d), EdgeT0(v, k, o, d))
 
